@@ -602,8 +602,8 @@ func TestVerif_C28(t *testing.T) {
 	// a small dose of the goroutine race variant (generated bulk inserts against explicit ids placed
 	// at the live sequence), so that the quick tier has some chance at intra-statement races too
 	recRace := vh.NewRecorder("C28", "parallel_explicit_vs_generated_dose", "exploration", parRaceRule,
-		"quick-tier dose: 4 cases of 12 generating statements per session; the full variant is TestVerif_C28_race (thorough)",
+		"quick-tier dose: 8 cases of 30 generating statements per session; the full variant is TestVerif_C28_race (thorough)",
 		"failures do not shrink; the first problems and the drawn parameters are printed")
 	defer recRace.Write(t)
-	vh.Check(t, "race_dose", 4, 4, func(rt *rapid.T) { parSeqRace(rt, srv, admin, recRace, 12, 1500) })
+	vh.Check(t, "race_dose", 8, 8, func(rt *rapid.T) { parSeqRace(rt, srv, admin, recRace, 30, 3000) })
 }
